@@ -2,6 +2,7 @@
 from run_check import Case
 from vlib import untok, line
 from props import pipegen as g
+from props.c10 import judge_silent
 
 TRUSTED_BASE = [
     "Coq 8.16.1 kernel (coqc; coqchk in the thorough tier)",
@@ -11,13 +12,14 @@ TRUSTED_BASE = [
     "tokio's timer under the paused clock fires exactly at its deadline (slack 0); a real clock only fires later",
     "extraction + driver.ml, cross-checked against vm_compute; harness door verif::pipe under start_paused; door verif::session for the session-level timer (real time)",
     "hand-written model coq/Model/Listener.v of the session loop with respect to client_listener_timeout; fact LISTENER_TIMEOUT_SPARES_ACTIVE_SESSIONS",
+    "the real endpoint over a scripted SOCKS5 server that falls silent (c15_silent_front, real time); fact MUX_AUTH_UNDER_ESTABLISHMENT_TIMEOUT",
 ]
 ASSUMPTIONS = [
     "tokio::time::timeout never fires before its deadline and polls the inner future first",
     "establishment and handshake timeouts are tokio::time::timeout wrappers whose presence is a regenerated structural fact; their firing is exercised through the session door in C10",
 ]
 RULE = ("activity patterns relative to T: arrival gaps in {1, 7, T/3, T-3, T-1, T, T+1, T+7, 2T-1, 2T, 2T+3, 3T+11}, one-sided and two-sided traffic, "
-        "back-pressure stalls shorter and longer than T, ends idle / EOF / flush-never / error; whole sessions (HTTP/1.1, HTTP/2) with a tunnel transferring under a short client-listener timeout, then idle;  pure-arrival scenarios carry the direct oracle "
+        "back-pressure stalls shorter and longer than T, ends idle / EOF / flush-never / error; whole sessions (HTTP/1.1, HTTP/2) with a tunnel transferring under a short client-listener timeout, then idle; CONNECT ip:port / _udp2 through a SOCKS5 forwarder whose server falls silent at the greeting / authentication / request;  pure-arrival scenarios carry the direct oracle "
         "(closed no earlier than T and no later than 2T after the last transfer, never while a transfer happens in every period); "
         "non-trivial = some gap >= T-3; distinct = distinct script")
 
@@ -73,6 +75,13 @@ def gen_cases(rng, ctx):
             l = line("c14_establish", [[http2, est, 100000]])
             cases.append(Case(l, l, kind="live:establishment-h%d" % (2 if http2 else 1), nontrivial=True,
                               meta={"establish": True, "est": est, "http2": http2}))
+    # the same clause for what the SOCKS5 forwarder has to ask its server before it accepts a UDP multiplexer request (and, as a
+    # control, for its TCP connect): a server that accepts the connection and falls silent at some step of the dialogue
+    for http2 in (0, 1):
+        for mode, udp, est in ((0, 1, 400), (1, 1, 300), (2, 1, 400), (3, 1, 300), (1, 0, 300)):
+            l = line("c15_silent_front", [[mode, udp, http2, est]])
+            cases.append(Case(l, None, kind="live:silent-socks-%s-h%d" % ("udp" if udp else "tcp", 2 if http2 else 1), nontrivial=True,
+                              meta={"silent": True, "mode": mode, "udp": udp, "http2": http2, "est": est}))
     # the timers of the real listener (Core::listen on a loopback port): silent TCP connection, half a ClientHello,
     # completed handshake without a request (HTTP/1.1 and HTTP/2)
     for kind in (0, 1, 2, 3):
@@ -98,6 +107,8 @@ RETRY_PREFIX = "live"
 
 
 def judge(case, impl, model, spec, ctx):
+    if case.meta.get("silent"):
+        return judge_silent(case, impl, None, ctx, released=True)
     if case.meta.get("idle"):
         if impl == "999":
             return [("violation", "the session harness panicked")]
